@@ -288,8 +288,11 @@ def run(ctx) -> None:
         m = dk.methods.get(mname)
         if m is None:
             raise AnalysisError(f"Data_K_R.{mname} vanished")
+        m = inline_private_helpers(idx, m)
         cs = [c for c in method_calls(m.node, "R_to_k")]
-        r4.check(bool(cs) and all(const_of(kwarg(c, "hermitian", 2), hdef) is True for c in cs),
+        if not r4.expect(bool(cs), f"{mname}: corner transform located", m, m.node, f"Data_K_R.{mname}: no R_to_k call found (also not in its private helpers)"):
+            continue
+        r4.check(all(const_of(kwarg(c, "hermitian", 2), hdef) is True for c in cs),
                  f"{mname}: corner Hamiltonians are Hermitised like HH_K", m, cs[0] if cs else m.node,
                  f"{mname} transforms the corner Hamiltonian without hermitian=True (its sibling HH_K uses it)")
     xb = dk.methods.get("Xbar")
